@@ -18,30 +18,14 @@ EXIT_HELD, EXIT_VIOLATED, EXIT_INCONCLUSIVE = 0, 1, 2
 
 
 def ensure_deps():
-    """icontract/deal beside the repository's interpreter (git-ignored, so rebuilt after a restore)"""
-    if os.path.isdir(os.path.join(DEPS, 'icontract')):
-        return
-    os.makedirs(DEPS, exist_ok=True)
-    lock = os.path.join(DEPS, '.lock')
-    try:
-        fd = os.open(lock, os.O_CREAT | os.O_EXCL | os.O_WRONLY)
-    except FileExistsError:
-        for _ in range(600):
-            if os.path.isdir(os.path.join(DEPS, 'icontract')) and not os.path.exists(lock):
-                return
-            time.sleep(.5)
-        return
-    try:
-        subprocess.run([PY, '-m', 'pip', 'install', '-q', '--no-index', '--find-links', WHEELS, '--target', DEPS,
-                        'icontract', 'deal'], check=True, stdout=subprocess.DEVNULL, stderr=subprocess.PIPE)
-    finally:
-        os.close(fd)
-        os.unlink(lock)
+    """nothing to install: the monitors are the harness's own call taps / registries (vf/monitor.py); the
+    repository's interpreter (/venv) already has everything the workload needs"""
+    return
 
 
 def child_env(repo, cache_dir, hashseed='0', extra=None):
     env = dict(os.environ)
-    env['PYTHONPATH'] = os.pathsep.join([repo, ROOT, DEPS])
+    env['PYTHONPATH'] = os.pathsep.join([repo, ROOT])
     env['PYTHONHASHSEED'] = str(hashseed)
     env['XDG_CACHE_HOME'] = cache_dir
     env['NUMBA_CACHE_DIR'] = os.path.join(cache_dir, 'numba')
